@@ -4,6 +4,7 @@ import (
 	"crypto/aes"
 	"crypto/hmac"
 	"crypto/sha512"
+	"fmt"
 	"hash"
 
 	"github.com/jcmturner/gokrb5/v8/crypto/common"
@@ -101,6 +102,10 @@ func (e Aes256CtsHmacSha384192) DecryptMessage(key, ciphertext []byte, usage uin
 
 // DeriveKey derives a key from the protocol key based on the usage value.
 func (e Aes256CtsHmacSha384192) DeriveKey(protocolKey, usage []byte) ([]byte, error) {
+	// HMAC pads a short key with zero octets, so without this check a key followed by zero octets acts as the key itself.
+	if len(protocolKey) != e.GetKeyByteSize() {
+		return nil, fmt.Errorf("incorrect keysize: expected: %v actual: %v", e.GetKeyByteSize(), len(protocolKey))
+	}
 	return rfc8009.DeriveKey(protocolKey, usage, e), nil
 }
 
